@@ -157,6 +157,24 @@ def run_item(item):
                     break
             if dbg and "p_id" in o.columns and not np.array_equal(o["p_id"].to_numpy(), df["p_id"].to_numpy()):
                 viol("index_labels:debug_inputs", f"index labels '{lab_name}': debug output rows are not the input rows in input order")
+    # unused columns whose names look like another time unit of a computed column
+    import re as _re
+
+    unit_re = _re.compile(r"(?P<base>.*_)(?P<u>[ymwd])(?P<agg>_hh|_wthh|_fg|_bg|_eg|_ehe|_sn)?$")
+    rules = [t for t in nodes if t in functions and unit_re.match(t)]
+    for _ in range(3 if item["tier"] == "quick" else 10):
+        t = rules[int(rng.integers(0, len(rules)))]
+        m_ = unit_re.match(t)
+        v = [u for u in "ymwd" if u != m_.group("u")][int(rng.integers(0, 3))]
+        other = f"{m_.group('base')}{v}{m_.group('agg') or ''}"
+        if other in df.columns or other in functions:
+            continue
+        g_nodes = set(env.graph(functions, list(df.columns), [t])[2].nodes)
+        if other in g_nodes:
+            continue  # the target really depends on that variant
+        dfx = df.copy()
+        dfx[other] = 12345.0 if not (m_.group("agg")) else 777.0
+        run([t], "unused_other_unit_column", data=dfx)
     extra = df.copy()
     extra["völlig_unbenutzt"] = np.arange(n, dtype=float)
     extra["bruttolohn_m_xx"] = 1.0
